@@ -34,12 +34,13 @@ func UpdateCase(r *rand.Rand, name string, o UpdateOpts) *Case {
 	ctxD := decl(src, "Ctx", Struct(F("ID", Basic("string"))))
 	fields := map[string]vref.FieldSpec{}
 	var methLines, convLines []string
-	kinds := []string{"basic", "basic", "namedbasic", "struct", "slice", "map", "ptrbasic", "ptrstruct", "chan", "any", "identslice", "identptr", "ignore", "missing", "rename", "func", "basic2ptr", "funcfield", "computed", "mapfunc", "mapfunclist", "mapfuncany", "namedslice", "namedmap", "whole", "wholefunc"}
+	kinds := []string{"basic", "basic", "namedbasic", "struct", "slice", "map", "ptrbasic", "ptrstruct", "chan", "any", "identslice", "identptr", "ignore", "missing", "rename", "func", "basic2ptr", "funcfield", "computed", "mapfunc", "mapfunclist", "mapfuncany", "namedslice", "namedmap", "whole", "wholefunc", "nestedptr"}
 	needSkip, needMissing := false, false
 	computed := false
 	funcSrc := ""
 	var mapFuncs, wholeFuncs []string
 	wholeUsed, needBase := false, false
+	nestedPtr := false
 	unnamedSource := r.Intn(5) == 0
 	used := map[string]bool{}
 	nf := 3 + r.Intn(6)
@@ -87,6 +88,14 @@ func UpdateCase(r *rand.Rand, name string, o UpdateOpts) *Case {
 			fields[f+"Out"] = vref.FieldSpec{Path: []string{"."}, Func: "fn:" + fn}
 			wholeFuncs = append(wholeFuncs, fn)
 			needBase = true
+		case "nestedptr":
+			// map HOLDER.Leaf FIELD through a pointer: the leaf arrives as a pointer, the source field is the leaf
+			nd := decl(src, "SNest", Struct(F("Leaf", Basic(b)), F("K", Basic("int"))))
+			sS.Fields = append(sS.Fields, F(f+"H", Ptr(Named(nd))))
+			tS.Fields = append(tS.Fields, F(f+"NP", Ptr(Basic(b))))
+			methLines = append(methLines, "map "+f+"H.Leaf "+f+"NP")
+			fields[f+"NP"] = vref.FieldSpec{Path: []string{f + "H", "Leaf"}}
+			nestedPtr = true
 		case "namedslice":
 			// named slice types are converted by a generated method
 			sS.Fields = append(sS.Fields, F(f, Named(decl(src, "SL", Slice(Basic(b))))))
@@ -333,6 +342,7 @@ func UpdateCase(r *rand.Rand, name string, o UpdateOpts) *Case {
 	c.Feature("skipcopy", fmt.Sprint(flagsMeth.SkipCopy))
 	c.Feature("ptrsource", fmt.Sprint(sT.K == KPtr))
 	c.Feature("unnamedsource", fmt.Sprint(unnamedSource))
+	c.Feature("nestedptrpath", fmt.Sprint(nestedPtr))
 	c.Feature("error", fmt.Sprint(hasErr))
 	return c
 }
